@@ -204,6 +204,12 @@ static uint64_t memory_page_read(vm_mngr_t* vm_mngr, unsigned int my_size, uint6
 		return 0;
 	}
 
+	/* A multiple page wide access faults before anything else if a byte is
+	   missing or not readable */
+	if (ad - mpn->ad + my_size/8 > mpn->size &&
+	    !check_multi_page_access(vm_mngr, ad, my_size / 8, PAGE_READ))
+		return 0;
+
 	/* check read breakpoint */
 	LIST_FOREACH(b, &vm_mngr->memory_breakpoint_pool, next){
 		if ((b->access & BREAKPOINT_READ) == 0)
@@ -243,9 +249,6 @@ static uint64_t memory_page_read(vm_mngr_t* vm_mngr, unsigned int my_size, uint6
 	else{
 		unsigned int new_size = my_size;
 		int index = 0;
-		/* Fault before reading if a byte is missing or not readable */
-		if (!check_multi_page_access(vm_mngr, ad, my_size / 8, PAGE_READ))
-			return 0;
 		while (new_size){
 			mpn = get_memory_page_from_address(vm_mngr, ad, 1);
 			if (!mpn)
@@ -294,7 +297,13 @@ static void memory_page_write(vm_mngr_t* vm_mngr, unsigned int my_size,
 		return ;
 	}
 
-	/* check read breakpoint*/
+	/* A multiple page wide access faults before anything else if a byte is
+	   missing or not writable */
+	if (ad - mpn->ad + my_size/8 > mpn->size &&
+	    !check_multi_page_access(vm_mngr, ad, my_size / 8, PAGE_WRITE))
+		return;
+
+	/* check write breakpoint*/
 	LIST_FOREACH(b, &vm_mngr->memory_breakpoint_pool, next){
 		if ((b->access & BREAKPOINT_WRITE) == 0)
 			continue;
@@ -330,9 +339,6 @@ static void memory_page_write(vm_mngr_t* vm_mngr, unsigned int my_size,
 	}
 	/* write is multiple page wide */
 	else{
-		/* Fault before writing if a byte is missing or not writable */
-		if (!check_multi_page_access(vm_mngr, ad, my_size / 8, PAGE_WRITE))
-			return;
 		switch(my_size){
 
 		case 8:
